@@ -128,7 +128,7 @@ impl Check for C03 {
             extra ^= policy_digest(&pol);
             fs.plan(INP, FilePlan { read: pol, ..Default::default() });
             let before = io.borrow().errors_returned.len();
-            let r = guard(|| GdsLibrary::open(INP));
+            let r = guard(|| GdsLibrary::open(fs.sp(INP)));
             let fired = io.borrow().errors_returned.len() > before;
             expect(r, "open", fired, &mut out);
             // history: the file is replaced by another conformant stream of the SAME length; opening the same path again
@@ -148,7 +148,7 @@ impl Check for C03 {
                     if b2.len() == bytes.len() {
                         fs.put(INP, b2.clone());
                         fs.plan(INP, FilePlan::default());
-                        match guard(|| GdsLibrary::open(INP)) {
+                        match guard(|| GdsLibrary::open(fs.sp(INP))) {
                             Ok(Ok(l)) => {
                                 n2.extras.clear();
                                 if let Some(d) = gdsref::diff(&n2, &model_of(&l)) {
